@@ -8,7 +8,14 @@ func init() {
 	PropConfigs["C03"] = &PropConfig{ID: "C03", Modules: []Module{rtModule}, Specs: []string{"common.smt2"}, Extra: c03CompilerGoals}
 	PropConfigs["C11"] = &PropConfig{ID: "C11", Modules: []Module{{Dir: "runtime", Patterns: []string{"./internal/lib/runtime"}}}, Specs: []string{"common.smt2"}}
 	PropConfigs["C06"] = &PropConfig{ID: "C06", Modules: []Module{rtModule}, Specs: []string{"common.smt2"}}
-	PropConfigs["C07"] = &PropConfig{ID: "C07", Modules: []Module{rtModule}, Specs: []string{"common.smt2"}}
+	PropConfigs["C07"] = &PropConfig{ID: "C07", Modules: []Module{rtModule}, Specs: []string{"common.smt2"},
+		Post: func(ck *Checker, rep *Report, opts *Options) {
+			if opts.OnlyFn != "" {
+				return
+			}
+			runBounded(rep, opts, "c07", map[string]string{"ssa/abi/zz_verif_names_test.go": "harness/c07_names_test.go"}, []string{"./ssa/abi/"}, "TestZZVerifTypeNames",
+				[]string{"VERIF_C07=1"}, 1, "descriptor-name-iff-identical", "a fixed family of 56 types (1540 pairs) varying every attribute of Go type identity")
+		}}
 	PropConfigs["C20"] = &PropConfig{ID: "C20", Modules: []Module{{Dir: ".", Patterns: []string{"./internal/crosscompile"}}}, Specs: []string{"common.smt2", "paths.smt2"}}
 	PropConfigs["C10"] = &PropConfig{ID: "C10", Modules: []Module{rtModule}, Specs: []string{"common.smt2"}}
 	PropConfigs["C05"] = &PropConfig{ID: "C05", Modules: []Module{rtModule}, Specs: []string{"common.smt2", "utf8.smt2"}}
